@@ -76,9 +76,9 @@ Inductive case :=
 (* DNS64 above the cache: AAAA NODATA piece (with SOA MINIMUM) or none, the A
    pieces (one per address record), the alias pieces the A chase went through,
    bracket, the request tree's bound afterwards where the route lets the driver
-   read it, TTLs of the synthesised AAAAs *)
+   read it, TTLs of the synthesised AAAAs, TTLs of the alias records in the reply *)
 | CDns64 (has_soa : bool) (neg : piece) (minimum : Z) (addrs via : list piece) (t0 t1 : Z)
-         (bobs : option (option Z)) (obs : list Z)
+         (bobs : option (option Z)) (obs : list Z) (cobs : list Z)
 (* ReplaceIfCurrent racing SetFromResponse*/Purge on one store, any order *)
 | CCas (ops : list cop)
 (* prefetch through the real queue: claimed entry, refresh inputs, what the
@@ -93,6 +93,12 @@ Inductive case :=
 (* ------------------------------------------------------------------ *)
 (* helpers *)
 
+Fixpoint list_z_eqb (a b : list Z) : bool :=
+  match a, b with
+  | [], [] => true
+  | x :: a', y :: b' => (x =? y) && list_z_eqb a' b'
+  | _, _ => false
+  end.
 Definition oz_eqb (a b : option Z) : bool :=
   match a, b with
   | None, None => true
@@ -495,11 +501,14 @@ Definition check_case (c : case) : bool :=
       | None => (ttl <? 0) && oz_eqb eo None
       end
   | CProofHist mx steps => phist_check mx (mk_pindex None []) steps
-  | CDns64 hs neg mn addrs via t0 t1 bobs obs =>
+  | CDns64 hs neg mn addrs via t0 t1 bobs obs cobs =>
       let n := if hs then Some (neg, mn) else None in
       let consulted := neg :: via ++ addrs in
+      let ttl := dns64_ttl n addrs consulted t1 in
       negb (match obs with [] => true | _ => false end)
-      && forallb (fun x => x =? dns64_ttl n addrs consulted t1) obs
+      && forallb (fun x => x =? ttl) obs
+      (* the alias chain is copied with its own TTLs lowered to the synthesised one *)
+      && list_z_eqb cobs (map (fun v => let t := piece_ttl v t1 in if ttl <? t then ttl else t) via)
       && match bobs with Some b => oz_eqb b (dns64_bound None consulted) | None => true end
   | CCas ops => cas_replay [] 1%N ops
   | CPrefetch claimed current cls rrs cut w0 w1 t0 t1 replaced after_id after =>
@@ -583,7 +592,7 @@ Definition spec_case (c : case) : bool :=
       else forallb (fun x => (now <? x) && (ttl * second <=? x - now)) (se :: pcs)
            && match eo with Some e => forallb (fun x => e <=? x) (se :: pcs) | None => false end
   | CProofHist mx steps => phist_spec mx [] steps
-  | CDns64 hs neg mn addrs via t0 t1 bobs obs =>
+  | CDns64 hs neg mn addrs via t0 t1 bobs obs cobs =>
       (* the synthesised records are inside the lifetime of every cached piece they were composed from *)
       forallb (fun x =>
                  forallb (fun p => match p with
@@ -592,6 +601,11 @@ Definition spec_case (c : case) : bool :=
                                    end) (neg :: addrs)
                  && (0 <=? x)
                  && (if hs then x <=? mn else x <=? 600)) obs
+      (* an alias record never outlives the cached alias piece it was copied from *)
+      && forallb (fun x => forallb (fun p => match p with
+                                             | PHit e => (t0 <? entry_end e) && (x * second <=? entry_end e - t0)
+                                             | PFresh t _ => x <=? t
+                                             end) via) cobs
   | CCas ops => cas_spec [] ops
   | CPrefetch claimed current cls rrs cut w0 w1 t0 t1 replaced after_id after =>
       (* a refresh that lost the race leaves the newer entry in place; one that
